@@ -146,8 +146,16 @@ func TestVerifC15(t *testing.T) {
 				k++
 			}
 		}
-		if si%3 == 1 {
-			files = append(files, "README.md", "empty.db") // non-.txt entries are skipped
+		if si%3 != 2 {
+			// non-.txt entries are skipped wherever they stand in the list: first, in the middle, last
+			at := []int{0, len(files) / 2, len(files)}[rr.intn(3)]
+			files = append(files[:at], append([]string{"README.md", "empty.db"}, files[at:]...)...)
+		}
+		var txt []string
+		for _, f := range files {
+			if strings.HasSuffix(f, ".txt") {
+				txt = append(txt, f)
+			}
 		}
 		lc, err := varchive(files)
 		id := fmt.Sprintf("s%d", si)
@@ -178,11 +186,11 @@ func TestVerifC15(t *testing.T) {
 			var q string
 			switch qi % 4 {
 			case 0:
-				q = vread(files[rr.intn(k)])
+				q = vread(txt[rr.intn(len(txt))])
 			case 1:
 				q = vread(all[rr.intn(len(all))]) // possibly not in the archive
 			case 2:
-				ws := strings.Fields(vread(files[rr.intn(k)]))
+				ws := strings.Fields(vread(txt[rr.intn(len(txt))]))
 				for j := range ws {
 					if rr.chance(1, 15) {
 						ws[j] = "zzz"
@@ -190,7 +198,7 @@ func TestVerifC15(t *testing.T) {
 				}
 				q = strings.Join(ws, " ")
 			default:
-				q = "some text about software rights\n" + vread(files[rr.intn(k)]) + "\nand a license tail " + vread(files[rr.intn(k)])
+				q = "some text about software rights\n" + vread(txt[rr.intn(len(txt))]) + "\nand a license tail " + vread(txt[rr.intn(len(txt))])
 			}
 			if len(q) > 5000 {
 				q = q[:5000]
@@ -301,6 +309,8 @@ func vvariants(txt string) map[string]string {
 		"slash":  strings.Join(deco, "\n"),
 		"hash":   strings.Join(hash, "\n"),
 		"star":   " * " + strings.Join(lines, "\n * "),
+		// deep indentation: the raw text is much longer than what the normalisers leave of it
+		"indent16": strings.Repeat(" ", 16) + strings.Join(lines, "\n"+strings.Repeat(" ", 16)),
 	}
 }
 
@@ -315,10 +325,10 @@ func TestVerifC16(t *testing.T) {
 	}
 	all := vlicenseFiles()
 	var pick []string
-	vars := []string{"plain", "upper", "slash"}
+	vars := []string{"plain", "upper", "slash", "indent16"}
 	if vthorough() {
 		pick = all
-		vars = []string{"plain", "upper", "lower", "reflow", "spaced", "slash", "hash", "star"}
+		vars = []string{"plain", "upper", "lower", "reflow", "spaced", "slash", "hash", "star", "indent16"}
 	} else {
 		for len(pick) < 8 {
 			f := all[r.intn(len(all))]
